@@ -145,6 +145,57 @@ class Norm:
         return "<%s>" % k
 
 
+def alts(t, limit=24):
+    """Phi-free variants of a term: `f(phi{a | b}, c)` stands for `f(a, c)` and `f(b, c)`. Where a value merges (before or after
+    a call, inside or outside an aggregate) is an accident of how the source is phrased; the set of variants is not."""
+    k = t[0] if isinstance(t, tuple) and t else None
+    if k == "phi":
+        out = []
+        for x in t[1]:
+            for y in alts(x, limit):
+                if y not in out:
+                    out.append(y)
+        return out if len(out) <= limit else [t]
+    if k in ("q", "cast", "un", "discr", "len", "trybranch"):
+        kids = alts(t[1] if k != "un" else t[2], limit)
+        if k == "un":
+            return [(k, t[1], x) for x in kids]
+        return [(k, x) + tuple(t[2:]) for x in kids]
+    if k in ("field", "payload", "variant", "index"):
+        bases = alts(t[1], limit)
+        if k == "index":
+            idx = alts(t[2], limit)
+            if len(bases) * len(idx) > limit:
+                return [t]
+            return [(k, b, i) for b in bases for i in idx]
+        return [(k, b) + tuple(t[2:]) for b in bases]
+    if k == "bin":
+        a, b = alts(t[2], limit), alts(t[3], limit)
+        if len(a) * len(b) > limit:
+            return [t]
+        return [(k, t[1], x, y) for x in a for y in b]
+    if k in ("call", "tuple", "array"):
+        args = t[2] if k == "call" else t[1]
+        combos = [()]
+        for a in args:
+            av = alts(a, limit)
+            combos = [c + (x,) for c in combos for x in av]
+            if len(combos) > limit:
+                return [t]
+        if k == "call":
+            return [("call", t[1], c) + tuple(t[3:]) for c in combos]
+        return [(k, c) for c in combos]
+    if k == "agg":
+        combos = [()]
+        for n, a in t[3]:
+            av = alts(a, limit)
+            combos = [c + ((n, x),) for c in combos for x in av]
+            if len(combos) > limit:
+                return [t]
+        return [("agg", t[1], t[2], c) for c in combos]
+    return [t]
+
+
 def summary(fn, norm, calls_pred=None, ctx=None):
     """dict(atoms=set, calls=set, returns=set) of normalised strings."""
     pv = prov_of(fn, ctx) if ctx else prov_of(fn)
@@ -188,21 +239,49 @@ def summary(fn, norm, calls_pred=None, ctx=None):
             keep = False
         if not keep:
             continue
-        args = [norm.s(pv.operand(a, bi, len(fn.blocks[bi]["s"]))) for a in t["a"]]
-        out["calls"].add("%s(%s)" % (fname(p, norm.rename), ", ".join(args)))
+        whole = ("call", p, tuple(pv.operand(a, bi, len(fn.blocks[bi]["s"])) for a in t["a"]))
+        for v in alts(whole):
+            out["calls"].add("%s(%s)" % (fname(p, norm.rename), ", ".join(norm.s(a) for a in v[2])))
     for bi, bb in enumerate(fn.blocks):
         if bb["t"]["k"] == "ret":
             t = pv.local(0, bi, len(bb["s"]))
-            for l in leaves(t):
-                s = strip(l)
-                if s[0] == "call" and "from_residual" in s[1]:
-                    continue
-                out["returns"].add(norm.s(l))
+            def emit(prefix, x, depth=0):
+                # aggregates are compared field by field (the set of values each field can take), everything else by its variants
+                sx = x
+                while sx[0] in ("cast",):
+                    sx = sx[1]
+                if sx[0] == "phi":
+                    for y in sx[1]:
+                        emit(prefix, y, depth)
+                    return
+                if sx[0] == "agg" and sx[1].endswith("result::Result") and sx[2] == "Ok" and len(sx[3]) == 1:
+                    # Ok(v) and Ok(f(..)?) are reported as v and f(..): whether a Result is re-wrapped or returned as is carries no meaning
+                    inner = sx[3][0][1]
+                    while inner[0] in ("cast",):
+                        inner = inner[1]
+                    if inner[0] == "q" and strip(inner)[0] == "call":
+                        inner = inner[1]
+                    emit(prefix, inner, depth)
+                    return
+                if sx[0] == "agg" and depth < 3 and sx[3]:
+                    ty = TYPE_MAP.get(sx[1].rsplit("::", 1)[-1], sx[1].rsplit("::", 1)[-1])
+                    var = TYPE_MAP.get(sx[2], sx[2])
+                    head = ty if var == ty else "%s::%s" % (ty, var)
+                    for n, y in sx[3]:
+                        emit("%s%s.%s" % (prefix, head, norm.field_map.get(n, n)), y, depth + 1)
+                    return
+                for v in alts(sx):
+                    s_ = strip(v)
+                    if s_[0] == "call" and "from_residual" in s_[1]:
+                        continue
+                    out["returns"].add(("%s = " % prefix if prefix else "") + norm.s(v))
+            emit("", t)
         for si, st in enumerate(bb["s"]):
             if st["k"] == "=" and "p" in st["p"] and not bb["c"]:
                 flds = [e["f"] for e in st["p"]["p"] if isinstance(e, dict) and "f" in e]
                 if flds:
-                    out["stores"].add("%s := %s" % (".".join(norm.field_map.get(f, f) for f in flds), norm.s(pv._rvalue(st["rv"], bi, si, 0))))
+                    for v in alts(pv._rvalue(st["rv"], bi, si, 0)):
+                        out["stores"].add("%s := %s" % (".".join(norm.field_map.get(f, f) for f in flds), norm.s(v)))
                 elif st["p"]["p"] == ["*"] and fn.locals[st["p"]["l"]].get("n"):
                     # store through a named reference binding (`*tick_group_index = ..` on a `ref mut` pattern)
                     out["stores"].add("*%s := %s" % (norm.s(pv.place(st["p"], bi, si)), norm.s(pv._rvalue(st["rv"], bi, si, 0))))
